@@ -2,7 +2,7 @@
 import ast
 
 from ..loader import AnalysisError, norm, walk_shallow
-from ..cfg import build_cfg
+from ..cfg import build_cfg, node_calls
 from ..flow import Flow, const
 from ..util import callee_name, all_calls, arg, need, single_def, names_in, assignments_to
 from .. import base_rules
@@ -327,15 +327,56 @@ def enumeration_rule(ctx, rid):
         pass
     else:
         tt = norm(T.ast)
-        if tt.replace(" ", "") in ("dsisNoneoris_case_missing(ds,new_case,method=method)",):
-            rr.ok("parse_into_cases: every case x combination reaches `ds is None or is_case_missing(ds, new_case, method=method)`; appended on its true branch")
+        te = T.ast
+        okt = False
+        if isinstance(te, ast.BoolOp) and isinstance(te.op, ast.Or) and len(te.values) == 2 and norm(te.values[0]) == "ds is None" and isinstance(te.values[1], ast.Call) and norm(te.values[1].func) == "is_case_missing":
+            c_ = te.values[1]
+            apx = [c for c in node_calls(A) if isinstance(c.func, ast.Attribute) and c.func.attr == "append" and len(c.args) == 1]
+            okt = len(c_.args) >= 2 and norm(c_.args[0]) == "ds" and apx and norm(c_.args[1]) == norm(apx[0].args[0])
+        if okt:
+            rr.ok("parse_into_cases: every case x combination reaches `ds is None or is_case_missing(ds, <location>, ...)`; the tested location is the appended one")
         else:
             raise AnalysisError("idiom changed: parse_into_cases test `%s`" % tt)
-    nc = [n for n in pg.nodes if n.kind == "stmt" and isinstance(n.ast, ast.Assign) and norm(n.ast.targets[0]) == "new_case"]
-    if nc and isinstance(nc[0].ast.value, ast.Dict) and [norm(v) for v in nc[0].ast.value.values] == ["case", "dict(zip(combo_keys, setting))"]:
-        rr.ok("new_case = {**case, **dict(zip(combo_keys, setting))}: combo part overrides")
+    # the appended location: {**<case of the outer loop>, **dict(zip(<names of combos>, <setting of the product loop>))}
+    appc = [c for c in node_calls(A) if isinstance(c.func, ast.Attribute) and c.func.attr == "append" and len(c.args) == 1]
+    need(appc, "idiom changed: parse_into_cases append")
+    loc_e = appc[0].args[0]
+    if isinstance(loc_e, ast.Name):
+        d_ = single_def(p, loc_e.id, pg)
+        need(d_ is not None, "idiom changed: the appended location `%s` in parse_into_cases" % loc_e.id)
+        loc_e = d_[1]
+    case_v = norm(O.ast.target)
+    set_v = norm(I.ast.target)
+
+    def _def_text(e):
+        if isinstance(e, ast.Name):
+            d2 = single_def(p, e.id, pg)
+            if d2 is not None:
+                return norm(d2[1])
+        return norm(e)
+    par_combos = "combos"
+    if isinstance(loc_e, ast.Dict) and len(loc_e.keys) == 2 and all(k is None for k in loc_e.keys):
+        first, second = loc_e.values
+        ok_zip = isinstance(second, ast.Call) and norm(second.func) == "dict" and len(second.args) == 1 and isinstance(second.args[0], ast.Call) and norm(second.args[0].func) == "zip" and len(second.args[0].args) == 2
+        first_zip = isinstance(first, ast.Call) and norm(first.func) == "dict" and norm(second) == case_v
+        if norm(first) == case_v and ok_zip:
+            kx, sx = second.args[0].args
+            kt = _def_text(kx)
+            it_ok = "*" in norm(I.ast.iter)
+            vt = _def_text(I.ast.iter.args[0].value) if isinstance(I.ast.iter, ast.Call) and I.ast.iter.args and isinstance(I.ast.iter.args[0], ast.Starred) else None
+            if norm(sx) == set_v and kt in ("tuple(%s)" % par_combos, "list(%s)" % par_combos, "%s.keys()" % par_combos, "tuple(%s.keys())" % par_combos, "list(%s.keys())" % par_combos, par_combos) \
+                    and vt in ("tuple(%s.values())" % par_combos, "list(%s.values())" % par_combos, "%s.values()" % par_combos):
+                rr.ok("new location = {**case, **dict(zip(names of combos, setting))}: combo part overrides")
+            elif norm(kx) == set_v or (kt and ".values()" in kt) or (vt and ".values()" not in vt):
+                rr.bad(ctx.finding(rid, p, loc_e, "the requested location pairs the combination's values and names wrongly (`%s`)" % norm(second)[:60], construct="new-case"), "new_case")
+            else:
+                raise AnalysisError("idiom changed: names / values of the combination in parse_into_cases (%s / %s)" % (kt, vt))
+        elif first_zip:
+            rr.bad(ctx.finding(rid, p, loc_e, "the requested location is {**combination, **case}: the case's values override the combination's", construct="new-case"), "new_case")
+        else:
+            raise AnalysisError("idiom changed: the requested location `%s`" % norm(loc_e)[:70])
     else:
-        rr.bad(ctx.finding(rid, p, nc[0].ast if nc else p.node, "the requested location is not {**case, **dict(zip(combo_keys, setting))}", construct="new-case"), "new_case")
+        raise AnalysisError("idiom changed: the requested location `%s`" % norm(loc_e)[:70])
     return rr
 
 
